@@ -258,8 +258,10 @@ def compare(ctx, case, desc, side, got_cv, exp, disps_exp, method, attrs, l_img,
     if tm != ("max" if method == "zncc" else "min"):
         ctx.violation("type-measure", f"{side}: type_measure={tm!r} for {method}", case, desc=desc)
     cmax = attrs.get("cmax")
-    if fin.any():
-        mx = float(np.nanmax(np.abs(got)))
+    judged = fin & ~border if method == "zncc" else fin
+    if judged.any():
+        # zncc: the costs whose float32 rounding bound exceeds 0.05 (not judged above) are not judged against cmax either
+        mx = float(np.nanmax(np.abs(np.where(judged, got, 0.0))))
         lim = {"zncc": 1 + 1e-4}.get(method, cmax)
         if cmax is None or mx > lim + 1e-6:
             ctx.violation("cmax", f"{side}: cmax={cmax} but the largest |cost| is {mx}", case, desc=desc)
